@@ -154,6 +154,33 @@ def ref_sort(v, axis, asc, arg):
     return at_axis(v, axis, f)
 
 
+def sort_cols(items, d, asc, arg):
+    # items: the entries along the sorted axis, each of depth d - 1 (d == 1: scalars or None); missing values last, missing lists stay in place
+    if d == 1:
+        pres = [j for j in range(len(items)) if items[j] is not None]
+        pres.sort(key=lambda j: (items[j] if asc else -items[j], j))
+        nulls = [j for j in range(len(items)) if items[j] is None]
+        return pres + nulls if arg else [items[j] for j in pres] + [None] * len(nulls)
+    out = [None if x is None else list(x) for x in items]
+    rows = [i for i, x in enumerate(items) if x is not None]
+    m = max([len(items[i]) for i in rows] + [0])
+    for j in range(m):
+        who = [i for i in rows if len(items[i]) > j]
+        col = sort_cols([items[i][j] for i in who], d - 1, asc, arg)
+        if arg:
+            # positions count along the sorted axis: the row an element came from, not its rank among the rows long enough to have position j
+            remap = lambda x: None if x is None else ([remap(y) for y in x] if isinstance(x, list) else who[x])
+            col = [remap(x) for x in col]
+        for t, i in enumerate(who):
+            out[i][j] = col[t]
+    # a missing list is a missing value along the sorted axis: last
+    return [out[i] for i in rows] + [None] * (len(items) - len(rows))
+
+
+def ref_sort_any(v, axis, depth, asc, arg):
+    return at_axis(v, axis, lambda l: sort_cols(l, depth - axis, asc, arg))
+
+
 def ref_comb(v, axis, n, rep):
     def f(l):
         it = itertools.combinations_with_replacement(l, n) if rep else itertools.combinations(l, n)
@@ -328,6 +355,9 @@ def main():
                             if axis != depth - 1: continue
                             asc = random.random() < 0.5
                             cmd, exp = '%s %d %d 1' % (op, ax, int(asc)), ref_sort(v, axis, asc, op == 'argsort')
+                        elif op in ('sortany', 'argsortany'):
+                            asc = random.random() < 0.5
+                            cmd, exp = '%s %d %d 1' % (op[:-3], ax, int(asc)), ref_sort_any(v, axis, depth, asc, op.startswith('arg'))
                         elif op == 'reduce':
                             nm = random.choice(['sum', 'max', 'min', 'count', 'prod'])
                             mk = random.random() < 0.5 and nm != 'count'
